@@ -146,6 +146,8 @@ def check_class_groups(spec):
     divs = [d for d in range(1, C + 1) if C % d == 0]
     g = divs[spec["gsel"] % len(divs)]
     w, lab, root = common("ClassGroupsWrapper", spec, lambda r: (
+        # seed omitted: the documented default (a fixed seed) applies - identical arguments, identical mapping
+        ClassGroupsWrapper(r, classes_per_group=g, shuffle=spec["shuffle"]) if spec.get("seed_form") == "omitted" else
         # documented order: dataset, classes_per_group, shuffle, seed
         ClassGroupsWrapper(r, g, spec["shuffle"], spec["seed"]) if spec.get("call") == "positional" else
         ClassGroupsWrapper(r, classes_per_group=g, shuffle=spec["shuffle"], seed=spec["seed"])))
@@ -186,6 +188,7 @@ def check_swap_label(spec):
     from kappadata.wrappers.dataset_wrappers.swap_label_wrapper import SwapLabelWrapper
     p = spec["p"]
     w, lab, root = common("SwapLabelWrapper", spec, lambda r: (
+        SwapLabelWrapper(r, p=p) if spec.get("seed_form") == "omitted" else
         SwapLabelWrapper(r, p, spec["seed"]) if spec.get("call") == "positional" else SwapLabelWrapper(r, p=p, seed=spec["seed"])))
     app = [w.getitem_apply(i) for i in range(len(lab))]
     for i, (a, l) in enumerate(zip(app, lab)):
@@ -236,6 +239,16 @@ def check_pseudo_label(spec):
         kw = {}
     else:
         table = torch.tensor(rng.normal(size=(n, C)) * spec["scale"], dtype=torch.float32)
+        if form == "soft" and spec.get("tab") == "votes":
+            # integer vote counts (an ensemble's votes per class) with a unique winner per row
+            table = torch.stack([torch.from_numpy(rng.permutation(C)) for _ in range(n)]).long() * 3
+        elif form == "soft" and spec.get("tab") == "near_tie":
+            # the winner beats the runner-up by one float32 ulp, and the runner-up comes first
+            table = torch.tensor(rng.random(size=(n, C)) * 0.2, dtype=torch.float32)
+            for i in range(n):
+                a, b = sorted(int(v) for v in rng.choice(C, size=2, replace=False))
+                table[i, b] = 0.35
+                table[i, a] = float(np.nextafter(np.float32(0.35), np.float32(0)))
         kw = {}
         if form == "threshold":
             kw = {"threshold": spec["thr"]}
@@ -433,7 +446,8 @@ S_OVERWRITE = L(st.fixed_dictionaries({"k": st.integers(0, 9999), "as_tensor": s
 S_ALLGATHER = L(st.fixed_dictionaries({"W": st.integers(0, 47)}))
 S_PSEUDO = L(st.fixed_dictionaries({"k": st.integers(0, 9999), "form": st.sampled_from(["hard", "soft", "threshold", "threshold", "topk"]),
                                     "scale": st.sampled_from([0.0, 0.3, 1.0, 3.0]), "thr": st.sampled_from([0.0, 0.125, 0.25, 0.3, 0.5, 0.7, 0.9, 0.999]),
-                                    "topk": st.integers(0, 7), "tau": st.sampled_from([None, 0.5, 1.0, float("inf")]), "seed": SEED}))
+                                    "topk": st.integers(0, 7), "tau": st.sampled_from([None, 0.5, 1.0, float("inf")]), "seed": SEED,
+                                    "tab": st.sampled_from(["normal", "normal", "votes", "near_tie"])}))
 S_RANDCLS = L(st.fixed_dictionaries({"mode": st.sampled_from(["random", "randperm", "gatherbug"]), "nc": st.integers(1, 9),
                                      "W": st.integers(0, 47), "seed": SEED}))
 S_SEMI = L(st.fixed_dictionaries({"p": st.one_of(st.sampled_from([0.0, 1.0, 0.5, 0.1]), st.floats(0, 1)), "seed": SEED}), internal=True)
@@ -450,10 +464,14 @@ def _seed_forms(fn):
     return run
 
 
-def F(name, fn, strat, q=500, t=6000, np_seed=True):
+def F(name, fn, strat, q=500, t=6000, np_seed=True, omit_seed=False):
     # (KDRandomClassWrapper seeds a torch generator, which rejects numpy integers with a TypeError - a clean refusal, not generated)
+    if getattr(fn, "__name__", "") != "run":
+        # an exception raised inside the library for a generated, accepted configuration is a violation, not a harness error
+        fn = guarded(name, fn)
     if np_seed:
-        strat = strat.flatmap(lambda s: st.sampled_from(["int", "int", "numpy"]).map(lambda f: dict(s, seed_form=f)) if "seed" in s else st.just(s))
+        forms = ["int", "int", "numpy"] + (["omitted"] if omit_seed else [])  # omitted: only where the documented default is a fixed seed
+        strat = strat.flatmap(lambda s: st.sampled_from(forms).map(lambda f: dict(s, seed_form=f)) if "seed" in s else st.just(s))
         fn = _seed_forms(fn)
     return Facet(name, fn, strategy=lambda tier, s=strat: s, budget={"quick": q, "thorough": t},
                  shards={"quick": 1, "thorough": 4}, min_nontrivial={"quick": q // 12, "thorough": t // 12}, case_timeout=60)
@@ -467,9 +485,9 @@ S_STACKED = L(st.fixed_dictionaries({"chain": st.lists(st.fixed_dictionaries({
 FACETS = [
     F("stacked-wrappers", check_stacked, S_STACKED, q=600, t=8000),
     F("encoding-follows-class-count", guarded("encoding-follows-class-count", check_encoding_follows_class_count), S_RECONF, q=200, t=2000, np_seed=False),
-    F("class-groups", check_class_groups, S_GROUPS),
+    F("class-groups", check_class_groups, S_GROUPS, omit_seed=True),
     F("random-superclass", check_random_superclass, S_SUPER),
-    F("swap-label", check_swap_label, S_SWAP),
+    F("swap-label", check_swap_label, S_SWAP, omit_seed=True),
     F("overwrite-classes", check_overwrite, S_OVERWRITE),
     F("allgather", check_allgather, S_ALLGATHER),
     F("pseudo-label", check_pseudo_label, S_PSEUDO, q=800, t=9000),
